@@ -33,12 +33,12 @@ TECHNIQUE = "explicit enumeration of the program space (root x op sequences up t
 RULE = (
     "states = programs (root constructor, op sequence, read-out), transitions = appending one op / closing with a read-out; every program executed eagerly, under jax.jit, under jax.vmap over its data axis "
     "(vs stacked eager runs) and under jax.grad w.r.t. every continuous input (vs Richardson central differences, verdict |g-d_R| <= 1e-6*scale + 4*delta); crossings: class x {cold,warm} x "
-    "{flatten/unflatten, tree_map, jit identity, jit argument, jit result, scan carry, to_dict/from_dict}. distinct program = (root, ops, read-out); distinct crossing = (class, cache state, boundary)"
+    "{flatten/unflatten, tree_map, jit identity, jit argument, jit result, dataclass replace of an own field, scan carry, to_dict/from_dict}. distinct program = (root, ops, read-out); distinct crossing = (class, cache state, boundary)"
 )
 ASSUMPTIONS = [
     "inputs are differentiated inside their domain only: SPD inputs enter through Sigma = B B' + I (diagonal ones through exp), index arguments are static",
     "finite differences: steps h=1e-4 and h/2, Richardson value, uncertainty delta=|d_R-d_{h/2}|; programs through the heteroscedastic bounds use 1e-4*scale (fixed point iterated to 1e-5 and held by stop_gradient)",
-    "objects whose constructor is not idempotent on its own output or that hold non-array members (approximate conditionals, truncated measures) are transformed as part of whole programs (constructed inside the traced function), not in the crossing checks -- the statement names factors, measures, densities and linear conditionals",
+    "truncated measures (non-array members, experimental) are transformed as part of whole programs (constructed inside the traced function), not in the crossing checks; the six approximate conditional classes cross every boundary (R=1, Dx=Dy=Dk=2) and are observed through p(y|x) at points and their moment-matched marginal",
     "one representative shape tuple per class (D=2, R<=2) and one value index + the VERIF_SEED-indexed one; program depth bounded (see coverage.bounds)",
 ]
 BOUNDS = {
@@ -593,6 +593,19 @@ def _cross_objects(cls, vi, seed):
     elif cls in ("ConjugateFactor", "OneRankFactor", "LinearFactor", "ConstantFactor"):
         for R in (1, 2):
             out.append(("R%d" % R, lambda R=R: objs.mk_factor(cls, D, R, vi, seed, tag=("x18f",))[0]))
+    elif cls in APPROX_CLASSES:
+        Dk = 2
+
+        def mka():
+            M = objs.mat_batch(D, D + (Dk if cls[0] == "L" else 0), 1, vi, seed, ("x18a", cls)) * 0.5
+            b = objs.vecn_batch(D, 1, vi, seed, ("x18a", cls)) * 0.5
+            W = np.array([np.concatenate([[0.4 * (k + 1) * (-1) ** k], al.int_vector(D, salt=k + 1 + vi) * 0.4]) for k in range(Dk)])
+            if cls == "LRBFGaussianConditional":
+                return ac.LRBFGaussianConditional(M=J(M), b=J(b), mu=J(W[:, 1:]), length_scale=J(0.5 + np.abs(W[:, 1:])), Sigma=J(objs.spd_batch(D, 1, vi, seed, ("x18a", cls))))
+            if cls == "LSEMGaussianConditional":
+                return ac.LSEMGaussianConditional(M=J(M), b=J(b), W=J(W), Sigma=J(objs.spd_batch(D, 1, vi, seed, ("x18a", cls))))
+            return getattr(ac, cls)(M=J(M), b=J(b), A=J(al.int_matrix(D, D, salt=1 + vi)[None] * 0.5), W=J(W))
+        out.append(("R1", mka))
     else:
         kind = {"ConditionalGaussianPDF": "full", "ConditionalGaussianDiagPDF": "diag", "ConditionalIdentityGaussianPDF": "identity", "ConditionalIdentityDiagGaussianPDF": "identity_diag", "NNControlGaussianConditional": "nncontrol"}[cls]
         for R in ((1, 2) if kind != "nncontrol" else (1,)):
@@ -605,7 +618,9 @@ def _cross_objects(cls, vi, seed):
     return out
 
 
-CROSS_CLASSES = ["GaussianMeasure", "GaussianDiagMeasure", "GaussianPDF", "GaussianDiagPDF", "ConjugateFactor", "OneRankFactor", "LinearFactor", "ConstantFactor", "ConditionalGaussianPDF", "ConditionalGaussianDiagPDF", "ConditionalIdentityGaussianPDF", "ConditionalIdentityDiagGaussianPDF", "NNControlGaussianConditional"]
+# the approximate conditional classes are conditional classes too ("pytree round trips of every ... conditional class")
+APPROX_CLASSES = ["LRBFGaussianConditional", "LSEMGaussianConditional", "HeteroscedasticExpConditional", "HeteroscedasticCoshM1Conditional", "HeteroscedasticHeavisideConditional", "HeteroscedasticReLUConditional"]
+CROSS_CLASSES = APPROX_CLASSES + ["GaussianMeasure", "GaussianDiagMeasure", "GaussianPDF", "GaussianDiagPDF", "ConjugateFactor", "OneRankFactor", "LinearFactor", "ConstantFactor", "ConditionalGaussianPDF", "ConditionalGaussianDiagPDF", "ConditionalIdentityGaussianPDF", "ConditionalIdentityDiagGaussianPDF", "NNControlGaussianConditional"]
 
 
 def observe(o):
@@ -613,6 +628,11 @@ def observe(o):
     x = J(al.points(3, D, salt=1))
     y = J(al.points(2, D, salt=4))
     name = type(o).__name__
+    if name in APPROX_CLASSES:
+        # what the object evaluates to: p(y|x) at points, and its moment-matched marginal for a fixed prior
+        pr = objs.mk_pdf("GaussianPDF", objs.spd_batch(D, 1, 1, 0, ("x18pr",)), objs.vec_batch(D, 1, 1, 0, ("x18pr",)) * 0.5)
+        pm = o.affine_marginal_transformation(pr)
+        return dict(value=np.concatenate([np.asarray(o.condition_on_x(x).evaluate_ln(y)).ravel(), np.asarray(pm.mu).ravel(), np.asarray(pm.Sigma).ravel()]))
     if "Conditional" in name:
         if name.startswith("NNControl"):
             u = jnp.array([[0.7, -0.2]])
@@ -658,7 +678,9 @@ def run_crossing(shard, ctx):
                 "jit_result": lambda o: jax.jit(lambda leaves, td=jax.tree_util.tree_structure(o): jax.tree_util.tree_unflatten(td, leaves))(jax.tree_util.tree_leaves(o)),
                 "scan_carry": lambda o: jax.lax.scan(lambda c, _: (c, 0.0), o, jnp.arange(2))[0],
                 # a scan carry must keep its pytree structure: only where slice() returns the same class
-                "scan_carry_sliced": lambda o: jax.lax.scan(lambda c, _: (c.slice(jnp.arange(c.R)), 0.0), o, jnp.arange(2))[0] if hasattr(o, "slice") and not type(o).__name__.startswith("NNControl") and type(o.slice(jnp.arange(o.R))) is type(o) else o,
+                # rebuilding an object from its own fields (the dataclass replace) is the same round trip as unflattening
+                "replace_own_field": lambda o: o.replace(**{f: getattr(o, f) for f in [k for k, fd in o.__dataclass_fields__.items() if fd.init][:1]}),
+                "scan_carry_sliced": lambda o: jax.lax.scan(lambda c, _: (c.slice(jnp.arange(c.R)), 0.0), o, jnp.arange(2))[0] if hasattr(o, "slice") and type(o).__name__ not in APPROX_CLASSES and not type(o).__name__.startswith("NNControl") and type(o.slice(jnp.arange(o.R))) is type(o) else o,
             }
             for cname, cfn in crossings.items():
                 if not ctx.case(dict(cls=cls, state=label, vi=vi, crossing=cname)):
@@ -682,7 +704,14 @@ def run_crossing(shard, ctx):
                 ctx.count("states")
                 ctx.count("transitions")
                 with ctx.guard("crossing.jit_argument", facts) as g:
-                    if "Conditional" in cls:
+                    if cls in APPROX_CLASSES:
+                        pr = objs.mk_pdf("GaussianPDF", objs.spd_batch(D, 1, 1, 0, ("x18pr",)), objs.vec_batch(D, 1, 1, 0, ("x18pr",)) * 0.5)
+
+                        def fa(o, xx, yy, pr):
+                            pm = o.affine_marginal_transformation(pr)
+                            return jnp.concatenate([o.condition_on_x(xx).evaluate_ln(yy).ravel(), pm.mu.ravel(), pm.Sigma.ravel()])
+                        got = np.asarray(jax.jit(fa)(mk(), x, J(al.points(2, D, salt=4)), pr))
+                    elif "Conditional" in cls:
                         if cls.startswith("NNControl"):
                             got = np.asarray(jax.jit(lambda o, xx, yy: o.condition_on_x_u(xx, jnp.array([[0.7, -0.2]])).evaluate_ln(yy))(mk(), x, J(al.points(2, D, salt=4))))
                         else:
@@ -705,4 +734,4 @@ def run_crossing(shard, ctx):
                     ctx.count("traces_validated_against_impl")
                     ctx.close("crossing.value", ob["value"], ref, facts=facts, symptom="function_changed")
                     coherent(ctx, "crossing.caches", ob, facts)
-    ctx.sample(dict(shard=shard["id"], cls=cls, crossings=["flatten_unflatten", "tree_map_identity", "jit_identity", "jit_result", "scan_carry", "scan_carry_sliced", "jit_argument", "to_dict_from_dict"]))
+    ctx.sample(dict(shard=shard["id"], cls=cls, crossings=["flatten_unflatten", "tree_map_identity", "jit_identity", "jit_result", "replace_own_field", "scan_carry", "scan_carry_sliced", "jit_argument", "to_dict_from_dict"]))
